@@ -299,7 +299,7 @@ PROPS = {
         "kani": [VARINT_KANI[2], VARINT_KANI[6], VARINT_KANI[7], VARINT_KANI[8], VARINT_KANI[9], FRAME_READ_20, FRAME_READ_4200, FRAME_KIND_KANI[1],
                  STREAM_HEADER_KANI[0], STREAM_KIND_KANI[1], DATAGRAM_KANI[4], CAPSULE_KANI[0], CAPSULE_KANI[1], CAPSULE_KANI[2], CAPSULE_KANI[3]]
                 + QPACK_INT_DEC + QPACK_MISC + [IDS_KANI[4], IDS_KANI[7], SETTING_ID_KANI[2]],
-        "verus": [V("frame", pair=("proto", "p_frame_read_matches_reference_20")), V("qpack_decode", pair=("proto", "p_qpack_decode_integer_n7")), V("settings", pair=("proto", "c_settingid_parse")), V("stream_header", pair=("proto", "p_stream_header_read_matches_reference"))],
+        "verus": [V("frame", pair=("proto", "p_frame_read_matches_reference_20")), V("qpack_decode", pair=("proto", "p_qpack_decode_integer_n7")), V("settings", pair=("proto", "c_settingid_parse")), V("stream_header", pair=("proto", "p_stream_header_read_matches_reference")), V("frame_async")],
         "not_decided": ["Decoder::decode loop / decode_string / Settings::with_frame under Kani (containers)"],
     },
     "C12": {
